@@ -74,6 +74,8 @@ def mat_index(mat, w, prev=None):
         return float(RM.ref_n(e, w)[0])
     if k == 'mirror':
         return prev
+    if k == 'abbe':
+        return float(mat['n'])      # model glass: n_d only (used for labels, never as an oracle)
     raise ValueError(k)
 
 
@@ -90,6 +92,8 @@ def mat_k(mat, w, prev=None):
         return float(RM.ref_k(e, w)[0])
     if k == 'mirror':
         return prev
+    if k == 'abbe':
+        return 0.0
     raise ValueError(k)
 
 
